@@ -9,6 +9,7 @@ import (
 	"fmt"
 	"reflect"
 	"strings"
+	"sync"
 	"unsafe"
 
 	"github.com/libp2p/go-libp2p/core/peer"
@@ -156,4 +157,114 @@ func vfShort(v reflect.Value) string {
 		return fmt.Sprintf("%s@%x", v.Type().String(), v.Pointer())
 	}
 	return v.Type().String()
+}
+
+// vfHeldLocks walks the module-owned object graph under the roots and tries every sync.Mutex / sync.RWMutex it can
+// address; it returns the paths of those that are held. Only meaningful at a quiescent point (no API call in
+// flight, every library goroutine parked), where a held lock means a lock that was never released.
+func vfHeldLocks(roots map[string]any) []string {
+	w := &vfLockWalker{seen: map[uintptr]bool{}, budget: 500_000}
+	for name, r := range roots {
+		w.walk(reflect.ValueOf(r), name, 0)
+	}
+	return w.held
+}
+
+type vfLockWalker struct {
+	seen   map[uintptr]bool
+	held   []string
+	budget int
+	probed int
+}
+
+var (
+	vfMutexType   = reflect.TypeOf(sync.Mutex{})
+	vfRWMutexType = reflect.TypeOf(sync.RWMutex{})
+)
+
+func (w *vfLockWalker) walk(v reflect.Value, path string, depth int) {
+	if !v.IsValid() || depth > 30 {
+		return
+	}
+	w.budget--
+	if w.budget < 0 {
+		return
+	}
+	switch v.Kind() {
+	case reflect.Ptr:
+		if v.IsNil() || w.seen[v.Pointer()] {
+			return
+		}
+		if s := v.Type().String(); s == "*pubsub.vfHost" || s == "*pubsub.vfRaw" || s == "*pubsub.vfMemTracer" || s == "*pubsub.vfConnMgr" {
+			return
+		}
+		w.seen[v.Pointer()] = true
+		w.walk(v.Elem(), path, depth+1)
+	case reflect.Interface:
+		if v.IsNil() {
+			return
+		}
+		e := v.Elem()
+		if vfOwnType(e.Type()) {
+			w.walk(e, path+"("+e.Type().String()+")", depth+1)
+		}
+	case reflect.Struct:
+		t := v.Type()
+		if t == vfMutexType {
+			if v.CanAddr() {
+				w.probed++
+				m := (*sync.Mutex)(unsafe.Pointer(v.UnsafeAddr()))
+				if m.TryLock() {
+					m.Unlock()
+				} else {
+					w.held = append(w.held, path)
+				}
+			}
+			return
+		}
+		if t == vfRWMutexType {
+			if v.CanAddr() {
+				w.probed++
+				m := (*sync.RWMutex)(unsafe.Pointer(v.UnsafeAddr()))
+				if m.TryLock() {
+					m.Unlock()
+				} else {
+					w.held = append(w.held, path)
+				}
+			}
+			return
+		}
+		if !vfOwnType(t) && t.PkgPath() != "" {
+			return
+		}
+		for i := 0; i < v.NumField(); i++ {
+			ft := t.Field(i)
+			if ft.Type.Kind() == reflect.Chan || ft.Type.Kind() == reflect.Func {
+				continue
+			}
+			w.walk(v.Field(i), path+"."+ft.Name, depth+1)
+		}
+	case reflect.Map:
+		if v.IsNil() || w.seen[v.Pointer()] {
+			return
+		}
+		w.seen[v.Pointer()] = true
+		it := v.MapRange()
+		for it.Next() {
+			k, e := it.Key(), it.Value()
+			if k.Kind() == reflect.Ptr {
+				w.walk(k, path+"[key "+vfShort(k)+"]", depth+1)
+			}
+			if e.Kind() == reflect.Ptr || e.Kind() == reflect.Interface || e.Kind() == reflect.Map || e.Kind() == reflect.Slice {
+				w.walk(e, path+"["+vfShort(k)+"]", depth+1)
+			}
+		}
+	case reflect.Slice, reflect.Array:
+		if v.Kind() == reflect.Slice && (v.IsNil() || v.Type().Elem().Kind() == reflect.Uint8) {
+			return
+		}
+		for i := 0; i < v.Len() && i < 2000; i++ {
+			w.walk(v.Index(i), fmt.Sprintf("%s[%d]", path, i), depth+1)
+		}
+	}
 }
